@@ -15,7 +15,7 @@ PROBES = ['a"; discard; #', "a\\", 'x" , "y', "a]", "${x}", "a\r\nb",
           # tail, with a separator only str.splitlines() knows), tags, numbers, a bracket comment
           "text:\na\n.", "text:\na\n.\nb\n.", "text:\nBack\n.\n;\ndiscard;\nstop;\nreject text:\nbye\n.", "text:\u2028.", "text:\n.",
           'text:\nsay "hi"\n.', ":copy", ":is", "10", "1K", "/* x */", "true",
-          "spam\uff02, \uff02eggs", "Archive\uff3c", "a\ufe68", "x\uff02; discard; #", "cafe\u0301"]
+          'Bob <"weird local"@example.com>', "x <'tis@example.com>", "spam\uff02, \uff02eggs", "Archive\uff3c", "a\ufe68", "x\uff02; discard; #", "cafe\u0301"]
 BENIGN = "BENIGNVALUE"
 
 
